@@ -318,4 +318,5 @@ func runRoundtripMode() {
 	runKnownFindings(r)
 	longStreamCases("C01", rng.FromEnv(111))
 	dictStringLengthCases("C01")
+	bigPlainStringCases("C01")
 }
